@@ -135,6 +135,19 @@ static long do_pop_all(void)
 			cds_wfs_pop_unlock(&ws);
 		} else
 			hd = sync_mode == 0 ? cds_wfs_pop_all_blocking(&ws) : __cds_wfs_pop_all(&ws);
+		if (vrt_param("nb_iter", 0)) {
+			/* the non-blocking iterator: WOULDBLOCK (a push of a node below is still in flight) means "try again", never "end" */
+			for (n = cds_wfs_first(hd); n != NULL; ) {
+				struct cds_wfs_node *nx;
+
+				enc = enc * 8 + caa_container_of(n, struct item, w)->id;
+				if (++cnt > 6)
+					vrt_fail("pop_all list does not terminate");
+				while ((nx = cds_wfs_next_nonblocking(n)) == CDS_WFS_WOULDBLOCK)
+					vrt_yield();
+				n = nx;
+			}
+		} else
 		cds_wfs_for_each_blocking(hd, n) {
 			enc = enc * 8 + caa_container_of(n, struct item, w)->id;
 			if (++cnt > 6)
